@@ -797,4 +797,35 @@ theorem C20_spec_inverse (N : StdNormal) (hR : N.RightInv) (hL : N.LeftInv) (d :
   rw [e1, e2, e3, e4]
   exact ⟨nearAll_refl _, nearAll_refl _, nearAll_refl _, nearAll_refl _⟩
 
+theorem nearRelAll_refl (l : List ℚ) : nearRelAll 0 l l = true := by
+  induction l with
+  | nil => rfl
+  | cons a l ih =>
+    have h : nearRel 0 a a = true := by
+      simp only [nearRel, sub_self, zero_mul, decide_eq_true_eq, absQ]
+      norm_num
+    simp only [nearRelAll, h, ih, Bool.and_self]
+
+/-- **C20 (inverse, spec form with a purely relative tolerance).** The round trips of the model return
+the inputs exactly, so they also pass the relative form used for rates deep in a tail (1e-150 ... 1e-6),
+where the absolute tolerance of `inverseOK` would accept anything. -/
+theorem C20_spec_inverse_rel (N : StdNormal) (hR : N.RightInv) (d : NormalDataset)
+    (hp : 0 < d.sigmaPos) (hn : 0 < d.sigmaNeg) (rates : List ℚ)
+    (hr : ∀ r ∈ rates, 0 < r ∧ r < 1) :
+    inverseRelOK 0 rates (rates.map fun r => d.fnr N (d.thresholdAtFnr N r)) = true ∧
+    inverseRelOK 0 rates (rates.map fun r => d.fpr N (d.thresholdAtFpr N r)) = true := by
+  have e1 : (rates.map fun r => d.fnr N (d.thresholdAtFnr N r)) = rates := by
+    conv => rhs; rw [← List.map_id rates]
+    exact List.map_congr_left fun r h => C20_inverse_fnr N hR d hp r (hr r h).1 (hr r h).2
+  have e2 : (rates.map fun r => d.fpr N (d.thresholdAtFpr N r)) = rates := by
+    conv => rhs; rw [← List.map_id rates]
+    exact List.map_congr_left fun r h => C20_inverse_fpr N hR d hn r (hr r h).1 (hr r h).2
+  rw [e1, e2]
+  exact ⟨nearRelAll_refl _, nearRelAll_refl _⟩
+
+example : (∀ r ∈ [(1 : ℚ) / 10 ^ 150, 1 / 10 ^ 6], 0 < r ∧ r < 1) := by
+  intro r hr
+  simp only [List.mem_cons, List.mem_nil_iff, or_false] at hr
+  rcases hr with rfl | rfl <;> norm_num
+
 end SA
